@@ -105,8 +105,11 @@ InitStateF(bom, sepOn) ==
 InitState(bom) == InitStateF(bom, MacroSepOn)
 
 Fault(S, f) == [S EXCEPT !.fault = IF @ = "" THEN f ELSE @]
-EmitErr(S, k) == [S EXCEPT !.errs = Append(@, [k |-> k, c |-> S.pos])]
-EmitErrAt(S, k, c) == [S EXCEPT !.errs = Append(@, [k |-> k, c |-> c])]
+\* lt: index (0-based) of the last token in the buffer when the error is reported, -1 if none (ErrorInfo.last_token)
+EmitErr(S, k) == [S EXCEPT !.errs = Append(@, [k |-> k, c |-> S.pos, lt |-> Len(S.toks) - 1])]
+EmitErrAt(S, k, c) == [S EXCEPT !.errs = Append(@, [k |-> k, c |-> c, lt |-> Len(S.toks) - 1])]
+\* an error whose info was prepared in the state S0, before further tokens were emitted
+EmitErrPrepared(S, k, S0) == [S EXCEPT !.errs = Append(@, [k |-> k, c |-> S0.pos, lt |-> Len(S0.toks) - 1])]
 Top(S) == IF S.modes = <<>> THEN MDefault ELSE S.modes[Len(S.modes)]
 Push(S, m) == [S EXCEPT !.modes = Append(@, m)]
 PushAll(S, ms) == [S EXCEPT !.modes = @ \o ms]       \* ms in push order
@@ -599,7 +602,7 @@ DispatchStrExpr(S0, T, allowStat) ==
        IF NsAt(T, S.pos + 1) THEN
             IF allowStat THEN LexMacroIdentifier(S, T, FALSE)
             ELSE LET S1 == LexMacroIdentifier(S, T, FALSE) IN
-                 IF IsStatType(LastTok(S1)) THEN EmitErrAt(S1, "OpenCodeRecursionError", S.pos) ELSE S1
+                 IF IsStatType(LastTok(S1)) THEN EmitErrPrepared(S1, "OpenCodeRecursionError", S) ELSE S1
        ELSE StrTextLoop(Adv(S, 1), T)
   ELSE StrTextLoop(S, T)
 
